@@ -1612,7 +1612,13 @@ bus_connection_complete (DBusConnection   *connection,
    * peer process; used for logging purposes.
    */
   if (!cache_peer_loginfo_string (d, connection))
-    goto fail;
+    {
+      /* this connection does not become active: give back its per-user slot */
+      if (dbus_connection_get_unix_user (connection, &uid) &&
+          !adjust_connections_for_uid (d->connections, uid, -1))
+        _dbus_assert_not_reached ("adjusting downward should never fail");
+      goto fail;
+    }
 
   /* Now the connection is active, move it between lists */
   _dbus_list_unlink (&d->connections->incomplete,
